@@ -165,7 +165,7 @@ func expNode(n *gen.SNode, key string) (string, error) {
 	if !isShortcut && key != "" {
 		dkey, _ = ref.DecodeString([]byte(key))
 	}
-	fmt.Fprintf(&b, "(%s key=%q sc=%v val=%q note=%q rules=[", tok, dkey, isShortcut, val, strings.TrimSpace(n.Note))
+	fmt.Fprintf(&b, "(%s key=%q sc=%v val=%q note=%q rules=[", tok, dkey, isShortcut, val, strings.Trim(n.Note, " \t\r\n"))
 	rules := append([]string{}, gen0...)
 	for _, r := range n.Rules {
 		v, err := ref.ParseRuleValue(r.Val)
